@@ -766,6 +766,45 @@ class HistoryRunner:
         self.c("precomputes")
 
     # --- invariants ------------------------------------------------------------------
+    def op_badset(self):
+        """An assignment the state must refuse (derived variable, hyperparameter, unknown name), through every assignment form: it is
+        reported as an input error and leaves no trace - values, cache and the pending fork (a later revert) are as if it was never tried."""
+        nonset = [n for n in self.dag.sorted_variables_names if not getattr(self.dag[n], "is_settable", True) and not self._forbidden_now(n)]
+        if not nonset:
+            return
+        name = str(self.rng.choice(nonset + ["__no_such_variable__"]))
+        form = int(self.rng.integers(0, 4))
+        if form >= 2 and name != "__no_such_variable__" and isinstance(self.ref.value(name), (Unset, Raised)):
+            form -= 2  # the read-modify-write forms first read the variable: not evaluable here, use the plain forms
+        self.log.append(("badset", name, form))
+        try:
+            cur = self.real._values.get(name)
+        except Exception:
+            cur = None
+        val = torch.zeros(()) if (cur is None or not isinstance(cur, torch.Tensor)) else torch.zeros_like(cur)
+        try:
+            if form == 0:
+                self.real[name] = val
+            elif form == 1:
+                self.real.put(name, val)
+            elif form == 2:
+                self.real.put(name, val, accumulate=True)
+            else:
+                idx = (0,) if val.ndim >= 1 and val.shape[0] >= 1 else ()
+                self.real.put(name, val[0] if idx else val, indices=idx, accumulate=bool(self.rng.integers(0, 2)))
+        except LeaspyInputError:
+            self.c("refused_assignments")
+        except Exception as e:
+            if name == "__no_such_variable__" or isinstance(e, (KeyError,)):
+                self.c("refused_assignments")
+            else:
+                self.viol("state/non-settable-assignment-wrong-exception", f"assignment form {form} of non-settable '{name}' raised {e!r} instead of an input error", self.log)
+                return
+        else:
+            self.viol("state/non-settable-assignment-accepted", f"assignment form {form} (0 item, 1 put, 2 accumulating put, 3 indexed put) of non-settable '{name}' was accepted", self.log)
+            return
+        self.quiescent(tag="after-refused-assignment")
+
     def op_device(self):
         """Moving the values to the device they are already on changes nothing (values, cache, pending fork)."""
         self.log.append(("to_device", "cpu"))
